@@ -134,6 +134,28 @@ def generate():
             raise Unsupported("AsyncSink._complete_task does not await the task exactly once")
         body += "/-- `_complete_task` returns at once for a task that belongs to another event loop -/\n"
         body += "def asyncSkipsForeignLoop : Bool := %s\n\n" % ("true" if [k for _, k in order] == ["skip", "await"] else "false")
+        # the worker's error report must not be able to kill the worker: everything ErrorInterceptor.print does with
+        # sys.stderr (writes, flushes, traceback.print_exception onto it) sits inside the try whose handler swallows
+        # OSError (a closed pipe, a full disk)
+        etree, _ = parse_module("_error_interceptor.py")
+        pr = find_func(etree, "print", cls="ErrorInterceptor")
+
+        def touches_stderr(node):
+            src = ast.unparse(node)
+            return isinstance(node, ast.Call) and ("sys.stderr" in src) and not src.startswith("str(")
+        guarded = []
+        for t in ast.walk(pr):
+            if isinstance(t, ast.Try) and any(
+                    h.type is not None and "OSError" in ast.unparse(h.type) and not any(isinstance(x, ast.Raise) for x in ast.walk(h))
+                    for h in t.handlers):
+                for st in t.body:
+                    guarded.extend(n for n in ast.walk(st) if touches_stderr(n))
+        every = [n for n in ast.walk(pr) if touches_stderr(n)]
+        if not every:
+            raise Unsupported("ErrorInterceptor.print does not write to sys.stderr")
+        body += "/-- every use of `sys.stderr` in `ErrorInterceptor.print` is inside the `try` that swallows OSError -/\n"
+        body += "def reportGuardsStderr : Bool := %s\n\n" % (
+            "true" if all(any(n is g for g in guarded) for n in every) else "false")
         # what travels through the queue is the formatted text with its record attached; the only part of a record
         # loguru itself makes picklable is the exception (RecordException.__reduce__ / _from_pickled_value)
         rtree, _ = parse_module("_recattrs.py")
@@ -157,4 +179,4 @@ def generate():
     except (Unsupported, SyntaxError, KeyError, AttributeError, IndexError) as e:
         errors.append("%s: %s" % (type(e).__name__, e))
     body += "\nend Queue.ShapeGen\n"
-    return emit("QueueShape", body, ["loguru/_handler.py", "loguru/_recattrs.py", "loguru/__init__.py", "loguru/_simple_sinks.py"], errors)
+    return emit("QueueShape", body, ["loguru/_handler.py", "loguru/_recattrs.py", "loguru/__init__.py", "loguru/_simple_sinks.py", "loguru/_error_interceptor.py"], errors)
